@@ -342,7 +342,7 @@ package shaping
 // markCandidateBest: the best line is the candidate followed by the suffixes; it lives in the unused part of the line
 // buffer exactly when bestInLine says so (finalizeBest advances lineUsed by its length only then), otherwise in
 // fresh memory.
-//@ func wrapBuffer.markCandidateBest C02 C04
+//@ func wrapBuffer.markCandidateBest C02 C04 C03
 //@   mode int
 //@   requires [buffer] 0 <= w.lineUsed && w.lineUsed <= cap(w.line) && len(w.line) <= cap(w.line)
 //@   ensures [length] len(w.best) == len(w.alt) + len(suffixes)
@@ -367,9 +367,10 @@ package shaping
 //@ trusted newBreaker
 //@   ensures [fresh] fresh(result) && result.totalRunes == len(text) && !result.isUnusedWord && !result.isUnusedGrapheme
 //@   modifies *seg; all(rune); all(segmenter.breakAttr)
-//@ func LineWrapper.Prepare C13 C02 C03
+//@ func LineWrapper.Prepare C13 C02 C03 C04 C08
 //@   mode bv
 //@   ensures [mapping-invalidated] !l.mapper.valid
+//@   ensures [truncator-as-given] l.config.Truncator.Direction == config.Truncator.Direction && l.config.Truncator.Advance == config.Truncator.Advance && sameslice(l.config.Truncator.Glyphs, config.Truncator.Glyphs)
 //@   ensures [position] l.lineStartRune == 0 && l.more
 //@   ensures [config] l.config.TruncateAfterLines == config.TruncateAfterLines && l.config.Direction == config.Direction && l.config.BreakPolicy == config.BreakPolicy && l.config.TextContinues == config.TextContinues
 //@   ensures [truncating] l.truncating == (config.TruncateAfterLines > 0)
@@ -629,19 +630,41 @@ package shaping
 //@   mode int
 //@   requires [run-in-text] 0 <= text.RunStart && text.RunEnd <= len(text.Text)
 //@   ensures [empty-run-kept] implies(text.RunStart >= text.RunEnd, len(seg.output) == old(len(seg.output))+1 && seg.output[len(seg.output)-1].RunStart == text.RunStart && seg.output[len(seg.output)-1].RunEnd == text.RunEnd)
+//   ghost token: bidiRuns(runs) is DEFINED as "runs is what splitByBidi left in seg.output" (not proved, handed to callers)
+//@   ensures [ghost-bidi-runs] bidiRuns(seg.output)
+//@   modifies unspecified
+//
+// Split: the pipeline always starts from the runs of the bidi pass - whatever the paragraph (no shortcut may bypass
+// the UAX #9 analysis, explicit embeddings/overrides included) - and these are the runs the script pass refines.
+//@ opaque bidiRuns(runs []Input) bool
+//@ func Segmenter.Split C08 C07
+//@   mode int
+//@   assert_at call splitByScript#1 : [itemization-starts-from-bidi-runs] bidiRuns(seg.input)
 //@   modifies unspecified
 //
 // enforceLanguages ("the language tag is compatible with the script"): every run gets enforceLang(initial, script).
+//@ opaque langIDOf(l language.Language) language.LangID
+//@ opaque langKnown(l language.Language) bool
+//@ opaque langTagOf(id language.LangID) language.Language
 //@ trusted std:language.NewLangID
+//@   ensures [function-of-the-tag] result0 == langIDOf(l) && result1 == langKnown(l)
 //@   modifies nothing
 //@ trusted std:language.LangID.Language
+//@   ensures [function-of-the-id] result == langTagOf(lang)
 //@   modifies nothing
+//   initLang: the language of the first run, "en" when it is empty. Every run gets the tag of
+//   enforceLang(NewLangID(initLang), its script) - computed from THIS call's initial language; when the library does
+//   not know that language no run is touched.
 //@ func Segmenter.enforceLanguages C07
 //@   mode int
 //@   requires [non-empty] len(seg.output) > 0
 //@   ensures [runs-kept] len(seg.output) == old(len(seg.output)) && forall(k, 0, len(seg.output), seg.output[k].RunStart == old(seg.output[k].RunStart) && seg.output[k].RunEnd == old(seg.output[k].RunEnd) && seg.output[k].Script == old(seg.output[k].Script) && seg.output[k].Direction == old(seg.output[k].Direction) && seg.output[k].Face == old(seg.output[k].Face))
+//@   ensures [unknown-language-untouched] implies(!langKnown(ite(old(seg.output[0].Language) == "", "en", old(seg.output[0].Language))), forall(k, 0, len(seg.output), seg.output[k].Language == old(seg.output[k].Language)))
+//@   ensures [each-run-enforced] implies(langKnown(ite(old(seg.output[0].Language) == "", "en", old(seg.output[0].Language))), forall(k, 0, len(seg.output), seg.output[k].Language == langTagOf(enforceLang(langIDOf(ite(old(seg.output[0].Language) == "", "en", old(seg.output[0].Language))), seg.output[k].Script))))
 //@   modifies seg.output[:].Language
 //@   loop 1 invariant [header] sameslice(seg.output, old(seg.output))
+//@   loop 1 invariant [id-of-this-call] initialLangID == langIDOf(ite(old(seg.output[0].Language) == "", "en", old(seg.output[0].Language)))
+//@   loop 1 invariant [done] forall(k, 0, rangeindex+1, seg.output[k].Language == langTagOf(enforceLang(initialLangID, seg.output[k].Script)))
 //
 // splitByVertOrientation ("orientation is uniform"): orientOf is the orientation unicodedata assigns to a rune for
 // the run's script (ScriptVerticalOrientation.Orientation, trusted to be a function of its arguments). The runs
@@ -691,4 +714,15 @@ package shaping
 //@   ensures [keeps-compatible] implies(lang.UseScript(s), result == lang)
 //@   ensures [replaces] implies(!lang.UseScript(s) && has(language.ScriptToLang, s) && language.ScriptToLang[s] != 0, result == language.ScriptToLang[s])
 //@   ensures [else-unchanged] implies(!lang.UseScript(s) && !(has(language.ScriptToLang, s) && language.ScriptToLang[s] != 0), result == lang)
+//@   modifies nothing
+//
+// inclusiveGlyphRange: which glyphs hold the runes [start, breakAfter] of a run, read off the rune->glyph mapping.
+// The branch is decided by the PROGRESSION of the direction only (axis and orientation bits are irrelevant):
+// toward the top left the glyph order is the reverse of the rune order.
+//@ func inclusiveGlyphRange C02
+//@   mode bv
+//@   inline
+//@   requires [range] 0 <= start && start <= breakAfter && breakAfter < len(runeToGlyph)
+//@   ensures [forward] implies(!bool(dir.Progression()), glyphStart == runeToGlyph[start] && glyphEnd == ite(breakAfter+1 < len(runeToGlyph), runeToGlyph[breakAfter+1]-1, numGlyphs-1))
+//@   ensures [backward] implies(bool(dir.Progression()), glyphStart == runeToGlyph[breakAfter] && glyphEnd == ite(start >= 1, runeToGlyph[start-1]-1, numGlyphs-1))
 //@   modifies nothing
